@@ -12,7 +12,7 @@ RULE = (
     "Cases: (adapter type x sequence over IUPAC/ACGT/low-complexity alphabets x max error rate or absolute "
     "number x minimum overlap x -N x --match-read-wildcards x indels, built directly or through the CLI parser; "
     "read with a planted, edited full/partial copy or unrelated) drawn by Hypothesis, plus an exhaustive "
-    "small-scope sweep (adapters over {A,C,N}, reads over {A,C,N,a}). Oracle: validity predicate recomputed from "
+    "small-scope sweep (adapters over {A,C,N}, reads over {A,C,N,a}); sub-check 'history' feeds several reads to ONE adapter object and requires the same result as a fresh object gives (no state leaking between reads). Oracle: validity predicate recomputed from "
     "scratch (bounds, placement rule of the type, minimum overlap, independent edit/Hamming distance under an "
     "independent wildcard relation, error budget in exact and float arithmetic). A case is non-trivial when a "
     "match is reported AND (errors >= 1 OR the adapter is matched partially OR an N lies in the aligned adapter part "
@@ -218,7 +218,54 @@ def check_cli(case, ctx):
         ctx.nontrivial_case({"args": args, "rows": rows[:2]})
 
 
+# ---------------------------------------------------------------- histories: one adapter object, several reads
+@st.composite
+def history_case(draw):
+    spec = draw(gen.adapter_spec(max_len=20, long_tail=False))
+    if draw(st.booleans()):
+        spec["type"] = draw(st.sampled_from(["prefix", "suffix", "nifront", "niback", "front", "back"]))
+        spec["indels"] = True
+    sn = gen.norm_seq(spec["seq"])
+    k = int(own_rate(spec) * len(sn))
+    reads = []
+    for _ in range(draw(st.integers(2, 5))):
+        r = draw(st.integers(0, 5))
+        if r == 0:
+            reads.append(sn.replace("N", "A")[: draw(st.integers(0, len(sn)))])  # a short / exact piece
+        elif r == 1:
+            reads.append(sn.replace("N", "A") + draw(st.text(alphabet="ACGT", max_size=6)))
+        else:
+            reads.append(draw(gen.planted_read(sn, min(k + 1, 4)))[0])
+    return {"sub": "history", "adapter": spec, "reads": reads}
+
+
+def check_history(case, ctx):
+    """The result for a read must not depend on which reads the same adapter object saw before."""
+    spec = case["adapter"]
+    try:
+        warmed = gen.build_adapter(spec)
+    except ValueError:
+        ctx.excluded += 1
+        return
+    nt = False
+    for i, read in enumerate(case["reads"]):
+        m = warmed.match_to(read)
+        fresh = gen.build_adapter(spec).match_to(read)
+        tw = None if m is None else [m.astart, m.astop, m.rstart, m.rstop, m.score, m.errors]
+        tf = None if fresh is None else [fresh.astart, fresh.astop, fresh.rstart, fresh.rstop, fresh.score, fresh.errors]
+        if m is not None:
+            nt = validate_match(spec, read, m, warmed) or nt
+        if tw != tf:
+            raise Violation(f"{spec['type']} adapter {spec['seq']!r} e={spec['e']} o={spec['o']} indels={spec['indels']}: "
+                            f"read {read!r} gives {tw} after the reads {case['reads'][:i]} but {tf} on a fresh adapter object",
+                            observed=tw, expected=tf)
+    ctx.label("type:" + spec["type"])
+    if nt:
+        ctx.nontrivial_case({"reads": case["reads"]})
+
+
 SUBS = {
+    "history": Sub(strategy=lambda tier: history_case(), check=check_history),
     "match": Sub(strategy=lambda tier: match_case(), check=check_match, sweep=sweep_cases),
     "cli": Sub(strategy=lambda tier: cli_case(), check=check_cli),
 }
@@ -227,12 +274,14 @@ SUBS = {
 def plan(tier):
     specs = []
     if tier == "quick":
-        specs += [{"sub": "match", "kind": "hyp", "examples": 7000} for _ in range(8)]
+        specs += [{"sub": "match", "kind": "hyp", "examples": 7000} for _ in range(7)]
+        specs += [{"sub": "history", "kind": "hyp", "examples": 2500} for _ in range(3)]
         specs += [{"sub": "cli", "kind": "hyp", "examples": 600} for _ in range(2)]
         specs += [{"sub": "match", "kind": "sweep", "amax": 3, "rmax": 4, "rates": [0, 0.5],
                    "part": i, "of": 6} for i in range(6)]
     else:
-        specs += [{"sub": "match", "kind": "hyp", "examples": 250000} for _ in range(12)]
+        specs += [{"sub": "match", "kind": "hyp", "examples": 250000} for _ in range(10)]
+        specs += [{"sub": "history", "kind": "hyp", "examples": 80000} for _ in range(4)]
         specs += [{"sub": "cli", "kind": "hyp", "examples": 15000} for _ in range(4)]
         specs += [{"sub": "match", "kind": "sweep", "amax": 4, "rmax": 6, "rates": [0, 0.26, 0.34, 0.5],
                    "part": i, "of": 32} for i in range(32)]
